@@ -3,6 +3,7 @@ import MpVerif.C03.LemmasNum
 import MpVerif.C03.LemmasGen
 import MpVerif.C03.LemmasIntended
 import MpVerif.C03.LemmasIntText
+import MpVerif.C03.LemmasCongr
 /-!
 # C03 — NL writer output is read back as the same model (text = binary)
 
@@ -81,8 +82,9 @@ theorem C03_events_eq_intended (cd : Codec) (m : Model) (o : Opts) (ok : NumOK c
     (hne : noException m = true) : (events cd m o).map Ev.nz = (intended m o).map Ev.nz :=
   events_intended cd m o ok hwf hne
 
-/-- the binary format reads back the 8 bytes it wrote (`idCodec`), and `nput`'s short/long packing is exact: `NumOK` holds
-    outright, for every `Dbl` -/
+/-- binary: in the token model the reader's `ReadDouble` returns the writer's double unchanged — that is the model's *definition*
+    of "the same 8 bytes, native byte order" (`idCodec`), not a theorem about bytes; what is proved is that `nput`'s short/long
+    packing and the `(double)(int)` conversion are exact, so `NumOK` holds for every `Dbl` -/
 theorem C03_numok_binary (o : Opts) (hb : o.binary = true) : NumOK idCodec o :=
   ⟨fun _ => rfl, fun x => numVal_binary_exact' x o hb, fun _ => rfl⟩
 
@@ -101,7 +103,7 @@ theorem C03_roundtrip_binary_as_fed (m : Model) (o : Opts) (hb : o.binary = true
     up to the sign of zero.  The hypothesis is tested on every run and is KNOWN TO BE FALSE for the real `g_fmt` on doubles whose
     upper rounding boundary is (within 1/64 ulp of) a short decimal — open finding `codec:boundary-tie-round-trip`, e.g.
     4611686018999999488 → "4.611686019e+18" → 4611686019000000512; for integer-valued doubles below 10^15 see
-    `C03_int_text_roundtrip`. -/
+    `C03_roundtrip_int_text_as_fed`. -/
 theorem C03_roundtrip_text_as_fed_partial (cd : Codec) (hrd : ∀ x, (cd.rd x).normZero = x.normZero)
     (hvb : ∀ x, (cd.vb x).normZero = x.normZero) (m : Model) (o : Opts) (ht : o.binary = false)
     (hwf : wellFormed m o = true) (hne : noException m = true) :
@@ -161,14 +163,32 @@ theorem C03_number_text_eq_binary (cd : Codec) (hcd : ∀ x, (cd.rd x).normZero 
     (numVal cd ot x).normZero = (numVal idCodec ob x).normZero := by
   rw [numVal_text_exact cd hcd x ot ht, numVal_binary_exact x hx ob hb]
 
-/-- **integer-valued doubles in text format, without any codec hypothesis**: for a double `x` whose value is the non-zero integer
-    `v`, `|v| < 10^15`, the text `g_fmt` prints (`gfmtInt v`: the digits of `|v|` without trailing zeros, then the zeros or an
-    exponent — compared with the real `g_fmt` on every run, harness lines `Z`) is read back by `strtod` as `v`, i.e. as the double
-    `x` itself.  A theorem over all such integers (decimal digits ↔ value, trailing-zero stripping, both layouts). -/
-theorem C03_int_text_roundtrip (x : Dbl) (v : Int) (h : x.toInt? = some v) (hv : v ≠ 0) (_hr : v.natAbs < 10 ^ 15) :
+/-- arithmetic of the integer text path (a lemma about the *model* `gfmtInt`/`strtodInt`, for every non-zero integer): the digits
+    without trailing zeros, times the power of ten that either layout encodes, are the integer again; and converting back gives
+    the double it came from.  By itself this says nothing about the real `g_fmt`/`strtod`: that `gfmtInt v` is the text `g_fmt`
+    prints and `ofInt (strtodInt …)` the double `strtod` returns is compared on every run for `|v| < 10^15` (harness lines `Z`),
+    and enters the theorems only through `FollowsIntPath` below. -/
+theorem C03_int_text_path (x : Dbl) (v : Int) (h : x.toInt? = some v) (hv : v ≠ 0) :
     strtodInt (gfmtInt v) = v ∧ (Dbl.ofInt (strtodInt (gfmtInt v))).normZero = x.normZero := by
   have e := strtod_gfmt_int v hv
   exact ⟨e, by rw [e]; exact ofInt_toInt' x v h⟩
+
+/-- **Integer-data models in text format, connected to the token reader**: let the codec be *any* function that, on integer data
+    (±0, ±∞, non-zero integers below 10^15), follows the proved path (`FollowsIntPath`: `0` ↦ 0, `±Infinity` ↦ itself,
+    integer `v` ↦ `(double) strtodInt (gfmtInt v)`) — nothing is assumed about other doubles, so the known-false boundary cases
+    are not covered by the hypothesis.  Then for every well-formed model outside the two exception classes all of whose numbers
+    are integer data, `readTokens cd (writeNL m o)` is `intended m o` up to the sign of zero.  (`NumOK` is not assumed: it is
+    derived for the path codec, and `events` is shown to depend on the codec only at the model's numbers.) -/
+theorem C03_roundtrip_int_text_as_fed (cd : Codec) (hf : FollowsIntPath cd) (m : Model) (o : Opts) (ht : o.binary = false)
+    (hwf : wellFormed m o = true) (hne : noException m = true) (hint : AllNums IntData m)
+    (hvb : (cd.vb m.hdr.vbtol).normZero = m.hdr.vbtol.normZero) :
+    ∃ evs, readTokens cd (writeNL m o) = .ok evs ∧ evs.map Ev.nz = (intended m o).map Ev.nz :=
+  roundtrip_int_text cd hf m o ht hwf hne hint hvb
+
+/-- `events` depends on the codec only at the numbers the model contains -/
+theorem C03_events_codec_local {P : Dbl → Prop} {cd cd' : Codec} (hrd : ∀ x, P x → cd.rd x = cd'.rd x) (m : Model) (o : Opts)
+    (hvb : cd.vb m.hdr.vbtol = cd'.vb m.hdr.vbtol) (h : AllNums P m) : events cd m o = events cd' m o :=
+  events_congr hrd m o hvb h
 
 /-! ## where `events` is not "as fed": partial theorems and counterexamples -/
 
@@ -367,9 +387,41 @@ example : (⟨false, 1023, 0⟩ : Dbl).Valid ∧ (⟨false, 1023, 0⟩ : Dbl).to
 -- C03_number_text_eq_binary: the hypothesis on the codec is satisfiable (and is what g_fmt/strtod satisfy outside the boundary cases)
 example : ∀ x : Dbl, ((⟨Dbl.normZero, id⟩ : Codec).rd x).normZero = x.normZero := by
   intro x; simp only [Dbl.normZero]; split <;> simp_all [Dbl.isZero, Dbl.zero]
--- C03_int_text_roundtrip: both layouts occur: 1234500 is printed plain, 12000000 as 1.2e+07, 100000 as 1e+05
+-- C03_int_text_path: both layouts occur: 1234500 is printed plain, 12000000 as 1.2e+07, 100000 as 1e+05
 example : gfmtInt 1234500 = .plain false [1, 2, 3, 4, 5] 2 ∧ gfmtInt 12000000 = .sci false [1, 2] 7 ∧ gfmtInt (-100000) = .sci true [1] 5 ∧
           (⟨false, 1043, 798537499541504⟩ : Dbl).toInt? = some 1234500 := by decide
+-- C03_roundtrip_int_text_as_fed: the hypotheses are satisfiable: the path codec follows the path; a model with integer data
+example : FollowsIntPath ⟨intPathRd, id⟩ := by
+  refine ⟨?_, ?_, ?_⟩
+  · intro x v h hv hr hz; simp [intPathRd, hz, h, hv, hr]
+  · intro x hz; simp [intPathRd, hz]
+  · intro x hi
+    have hz : x.isZero = false := by
+      simp only [Dbl.isInf, Bool.and_eq_true, beq_iff_eq] at hi
+      simp [Dbl.isZero, hi.1]
+    have ht : x.toInt? = none := by
+      unfold Dbl.toInt?
+      simp only [Dbl.isInf, Bool.and_eq_true, beq_iff_eq] at hi
+      simp [hi.1, hi.2]
+    simp [intPathRd, hz, ht]
+def exIntModel : Model :=
+  { hdr := { nv := 2, nac := 1, no := 0, flags := 1, arith := 1 }
+    vb := [(Dbl.negInf, Dbl.posInf), (Dbl.zero, ⟨false, 1024, 0⟩)]
+    cb := [⟨⟨true, 1025, 0⟩, ⟨false, 1043, 798537499541504⟩, 0, 0⟩]
+    cons := [([], ⟨"c", [(0, ⟨false, 1023, 0⟩), (1, ⟨false, 1046, 1938851316629504⟩)], .op2 2 "*" (.var 0 "x") (.num ⟨false, 1024, 2251799813685248⟩)⟩)]
+    colsz := [1] }
+example : wellFormed exIntModel {} = true ∧ noException exIntModel = true := by decide
+example : AllNums IntData exIntModel := by
+  have i2 : IntData ⟨false, 1024, 0⟩ := Or.inr (Or.inr ⟨2, by decide, by decide, by decide⟩)
+  have i3 : IntData ⟨false, 1024, 2251799813685248⟩ := Or.inr (Or.inr ⟨3, by decide, by decide, by decide⟩)
+  have im4 : IntData ⟨true, 1025, 0⟩ := Or.inr (Or.inr ⟨-4, by decide, by decide, by decide⟩)
+  have ib : IntData ⟨false, 1043, 798537499541504⟩ := Or.inr (Or.inr ⟨1234500, by decide, by decide, by decide⟩)
+  have i1 : IntData ⟨false, 1023, 0⟩ := Or.inr (Or.inr ⟨1, by decide, by decide, by decide⟩)
+  have i12m : IntData ⟨false, 1046, 1938851316629504⟩ := Or.inr (Or.inr ⟨12000000, by decide, by decide, by decide⟩)
+  have iz : IntData Dbl.zero := Or.inl (by decide)
+  have ini : IntData Dbl.negInf := Or.inr (Or.inl (by decide))
+  have ipi : IntData Dbl.posInf := Or.inr (Or.inl (by decide))
+  simp [AllNums, exIntModel, allSufs, allSparse, allVB, allCB, allInit, allDVs, allCons, allObjs, allE, iz, ini, ipi, i2, i3, im4, ib, i1, i12m]
 -- C03_events_eq_intended / C03_roundtrip_binary_as_fed: the example model is outside the exception classes
 example : noException exModel = true := by decide
 -- C03_bounds_partial: ordinary bounds [0, 1], [-∞, 1], [1, 1] with the exact codec
